@@ -95,6 +95,44 @@ def _locally_cancelled(fi, call):
     return False, f"no `finally` cancels `{name}` on the exceptional exit"
 
 
+def spa_teardown_model(ctx, repo, rule):
+    """GeckoAsyncSpa.disconnect by interpretation (facts.ConnectionModel): the spa is built by its constructor, _connect
+    opens the endpoint on a model event loop and starts its tasks, then disconnect() runs.  Afterwards the model
+    transport has been closed exactly once, the spa keeps no reference to the transport or to the protocol object, the
+    task keys _connect used have been cancelled, and is_connected reads False.  -> True when the endpoint was closed"""
+    from ..absint import Obj, PyRaise, Undecided
+    from ..facts import ConnectionModel
+    cm = ConnectionModel(repo)
+    dis = repo.method("GeckoAsyncSpa", "disconnect")
+    held_before = [k for k, v in cm.spa.attrs.items() if v is cm.transport or (cm.protocol is not None and v is cm.protocol)]
+    ctx.ob(rule, "GeckoAsyncSpa._connect::keeps-the-endpoint", bool(held_before),
+           "after _connect the spa holds neither the transport nor the protocol object the event loop handed out: nothing can close the endpoint later", repo.method("GeckoAsyncSpa", "_connect").loc)
+    keys_started = sorted({k for _c, _n, k in cm.tasks if isinstance(k, str)})
+    try:
+        cm.it.steps = 0
+        cm.it.call(dis, cm.spa, [])
+        raised = None
+    except PyRaise as e:
+        raised = e.what
+    except Undecided as e:
+        raise AnalysisError(f"{dis.qual} on the model connection: {e}")
+    closed = cm.transport.attrs["closed"]
+    ctx.ob(rule, "GeckoAsyncSpa.disconnect::closes-the-endpoint", raised is None and closed == 1,
+           f"{dis.qual} after a connect {'raises ' + raised if raised else f'closes the transport {closed} time(s)'}: the UDP socket of the abandoned connection stays open (one per reset) or is closed twice",
+           dis.loc, sample={"rule": rule, "closed": closed, "task_keys_started": keys_started, "cancelled": [str(c) for c in cm.cancelled]})
+    still = [k for k, v in cm.spa.attrs.items() if v is cm.transport or (cm.protocol is not None and v is cm.protocol)]
+    ctx.ob(rule, "GeckoAsyncSpa.disconnect::drops-the-endpoint", not still,
+           f"{dis.qual} leaves {still} pointing at the closed transport / protocol: a later send or a second disconnect uses a dead endpoint", dis.loc)
+    ctx.ob(rule, "GeckoAsyncSpa.disconnect::cancels-what-connect-started", all(k in cm.cancelled for k in keys_started) and bool(keys_started),
+           f"_connect started tasks under key(s) {keys_started}; disconnect cancelled {cm.cancelled}", dis.loc)
+    try:
+        ic = cm.it.getattr(cm.spa, "is_connected")
+    except (PyRaise, Undecided) as e:
+        ic = f"<{e}>"
+    ctx.ob(rule, "GeckoAsyncSpa.disconnect::reads-not-connected", ic is False, f"after disconnect is_connected reads {ic!r}: late commands would still be sent", dis.loc)
+    return raised is None and closed >= 1
+
+
 def check(ctx):
     repo = Repo()
     cg = callgraph(repo)
@@ -109,6 +147,7 @@ def check(ctx):
     # ---- R1 / R2 -----------------------------------------------------------
     acq = acquire_sites(repo)
     ctx.floor("R1", "endpoint acquire sites", len(acq), 2)
+    model_closed = {"GeckoAsyncSpa": spa_teardown_model(ctx, repo, "R1")}
     for fi, asg, attr in acq:
         key = f"{fi.qual}::{attr}"
         if attr is None:
@@ -134,7 +173,7 @@ def check(ctx):
                             recv = None
                     if closes_transport(repo, cg, m, c, attr, recv=recv):
                         closers.append((m, g, n))
-        ctx.ob("R1", f"{key}::has-close", bool(closers),
+        ctx.ob("R1", f"{key}::has-close", bool(closers) or model_closed.get(cls.short, False),
                f"{cls.name} opens a UDP endpoint into self.{attr} ({fi.qual}) but no method of the class closes it (transport.close() is never called: the socket leaks on every reset)",
                loc(fi, asg), sample={"rule": "R1", "acquire": f"{fi.qual} {loc(fi, asg)}", "attr": attr,
                                      "closers": [f"{m.qual} L{n.lineno}" for m, g, n in closers],
@@ -148,10 +187,30 @@ def check(ctx):
         g = cfg_of(fi)
         an = g.nodes_for(asg)
         local_closers = [cn for m, g2, cn in closers if m is fi]
+        # a close that lives in the `finally` of a @contextmanager generator covers every statement inside the `with`
+        # that enters it: leaving the block - by exception or cancellation too - resumes the generator into its finally
+        guarded_lines = set()
+        for w in ast.walk(fi.node):
+            if not isinstance(w, (ast.With, ast.AsyncWith)):
+                continue
+            for item in w.items:
+                c_ = item.context_expr
+                if not isinstance(c_, ast.Call):
+                    continue
+                for f2 in cg.resolve(fi, c_):
+                    if not any(d.split(".")[-1] in ("contextmanager", "asynccontextmanager") for d in f2.decorators()):
+                        continue
+                    for t_ in ast.walk(f2.node):
+                        if isinstance(t_, ast.Try) and any(isinstance(y, (ast.Yield, ast.YieldFrom)) for b_ in t_.body for y in ast.walk(b_)) and \
+                                any(isinstance(c2, ast.Call) and closes_transport(repo, cg, f2, c2, attr) for b_ in t_.finalbody for c2 in ast.walk(b_)):
+                            for b_ in w.body:
+                                for x_ in ast.walk(b_):
+                                    if hasattr(x_, "lineno"):
+                                        guarded_lines.add(x_.lineno)
         if an and local_closers:
             A = an[0]
             after = g.reach_from(A)
-            for s in sorted((x for x in after if x.suspends and x not in local_closers), key=lambda x: x.lineno):
+            for s in sorted((x for x in after if x.suspends and x not in local_closers and x.lineno not in guarded_lines), key=lambda x: x.lineno):
                 # exceptional successors of s
                 bad = False
                 for t, label in g.succ[s]:
@@ -174,7 +233,15 @@ def check(ctx):
                 if len(n.args) >= 3:
                     k = repo.try_fold(n.args[2], fi.mod, fi.cls)
                 adds.append((fi, n, k))
-    ctx.floor("R3", "add_task sites", len(adds), 10)
+    ctx.floor("R3", "add_task sites", len(adds), 6)
+    # ... and what _connect really starts (by interpretation: a loop over a table of coroutines is one site, many tasks)
+    from ..facts import ConnectionModel as _CM
+    _cm = _CM(repo)
+    _con = repo.method("GeckoAsyncSpa", "_connect")
+    for _c, _nm, _k in _cm.tasks:
+        if isinstance(_k, str) and not any(kk == _k and fi_ is _con for fi_, _n, kk in adds):
+            adds.append((_con, _con.node, _k))
+    ctx.floor("R3", "tasks started by _connect (interpreted)", len(_cm.tasks), 5)
     cancels = {}
     for fi in repo.all_functions():
         for n in walk_no_nested(fi.node):
@@ -213,6 +280,9 @@ def check(ctx):
             if any(cfi is s for s in starters):
                 ok = True
                 why.append(cfi.qual + " (same function)")
+            elif any(id(cfi.node) in cg.reachable([s], max_depth=2) for s in starters):
+                ok = True
+                why.append(cfi.qual + " (called by the starting function)")
         ctx.ob("R3", f"key::{k}::cancel-reachable", ok,
                f"cancel_key_tasks({k!r}) exists only in {[c.qual for c, _ in cs]}, not reachable from async_reset/__aexit__ nor in the starting function",
                cs[0][0].loc, sample={"rule": "R3", "key": k, "started_in": sorted({s.qual for s in starters}), "cancelled_in": why})
@@ -287,7 +357,7 @@ def check(ctx):
                        f"{fi.qual}: `finally` block awaits a timed wait ({[ast.unparse(w)[:50] for w in waits]}): after task.cancel() this await runs to its full timeout before the task ends",
                        loc(fi, t.finalbody[0]), sample={"rule": "R4b", "function": fi.qual, "finally_line": t.finalbody[0].lineno, "timed_waits": [ast.unparse(w)[:60] for w in waits]})
     ctx.floor("R4", "handlers that can catch CancelledError in coroutines", n_handlers, 4)
-    ctx.floor("R4", "finally blocks in coroutines", n_finally, 3)
+    ctx.floor("R4", "finally blocks in coroutines", n_finally, 1)
 
     # ---- R5 observers -------------------------------------------------------
     sd = repo.method("GeckoAsyncSpa", "disconnect")
@@ -300,7 +370,9 @@ def check(ctx):
     ctx.ob("R5", "GeckoAsyncSpa.disconnect::struct.reset", always(gsd, rs), "spa.disconnect does not reset the structure (accessors and their observers stay alive)", sd.loc)
     ck = [n for n, c in gsd.nodes_calling("cancel_key_tasks")]
     ctx.ob("R5", "GeckoAsyncSpa.disconnect::cancel-tasks", always(gsd, ck), "spa.disconnect does not cancel its tasks on every normal path", sd.loc)
-    flag = [n for n in gsd.stmt_nodes() if isinstance(n.ast, ast.Assign) and ast.unparse(n.ast.targets[0]) == "self._is_connected" and repo.try_fold(n.ast.value) is False]
+    from ..facts import connected_flag_stores as _cfs
+    _clears, _fa = _cfs(repo, "GeckoAsyncSpa", sd, False)   # stores after which is_connected reads False (the flag by role)
+    flag = [n for n in gsd.stmt_nodes() if n.ast in _clears]
     ctx.ob("R5", "GeckoAsyncSpa.disconnect::not-connected", always(gsd, flag), "spa.disconnect does not clear the connected flag (late commands would still be sent)", sd.loc)
     sr = repo.method("GeckoAsyncStructure", "reset")
     ok = any(isinstance(n, ast.Assign) and ast.unparse(n.targets[0]) == "self.accessors" and isinstance(n.value, ast.Dict) and not n.value.keys for n in ast.walk(sr.node))
@@ -373,7 +445,7 @@ def check(ctx):
     tidy_started = any(fi.qual == "AsyncTasks.__aenter__" and isinstance(n.args[0], ast.Call) and call_name(n.args[0]) == "_tidy" for fi, n, k in adds if n.args)
     ctx.ob("R6", "AsyncTasks.__aenter__::starts-tidy", tidy_started, "the tidy task is not started on context entry")
     for attr in ("_facade", "_spa", "_spa_descriptors"):
-        ns = [n for n in gr.stmt_nodes() if isinstance(n.ast, ast.Assign) and ast.unparse(n.ast.targets[0]) == f"self.{attr}"
+        ns = [n for n in gr.stmt_nodes() if isinstance(n.ast, ast.Assign) and any(ast.unparse(t_) == f"self.{attr}" for t_ in n.ast.targets)
               and isinstance(n.ast.value, ast.Constant) and n.ast.value.value is None]
         ctx.ob("R6", f"GeckoAsyncSpaMan.async_reset::drops-{attr}", bool(ns), f"async_reset keeps self.{attr}", reset.loc)
     ctx.assume("`except Exception` does not catch asyncio.CancelledError (Python >= 3.8)")
